@@ -16,7 +16,7 @@ import vworker
 from vcheck import coq_list
 
 HEADER = "From V.C09 Require Import Spec Model Run.\nFrom Coq Require Import ZArith.\n"
-OPS = {"send": "OSend", "recv": "ORecv", "close": "OClose", "is": "OIsClosed"}
+OPS = {"send": "OSend", "recv": "ORecv", "close": "OClose", "is": "OIsClosed", "len": "OLen", "cap": "OCap"}
 
 
 def coq_obs(ev):
@@ -36,6 +36,8 @@ def coq_obs(ev):
         return "OR RClosed"
     if what == "is":
         return "OR (RIs %s)" % ("true" if ev[3] else "false")
+    if what == "num":
+        return "OR (RNum %d)" % ev[3]
     raise ValueError(ev)
 
 
@@ -107,10 +109,12 @@ def main(ck):
                                  "Lemma channel_table_well_locked : well_locked channel_table = true.\nProof. vm_compute. reflexivity. Qed.\n"
                                  "Theorem channel_race_free : forall progs sched, Forall (from_table channel_table) progs -> ~ race (LockDiscipline.run (init_state progs) sched).\n"
                                  "Proof. exact (well_locked_race_free_l channel_table channel_table_well_locked). Qed.\n"
-                                 "(* the entries the model relies on: Send checks `closed` under the read lock, Close checks and sets it under the write lock *)\n"
+                                 "(* the shape the LTS assumes: Send does check-and-send under the read lock, Close check-and-close under the\n"
+                                 "   write lock, IsClosed/Receive/Len/Cap take no lock (`closed` is an atomic.Bool, `channel` is set by the constructor) *)\n"
                                  "Lemma channel_send_close_shape :\n"
-                                 "  (exists c, In (\"Send\", ARLock :: ARead c :: ARUnlock :: nil) channel_table /\\ In (\"Close\", ALock :: ARead c :: AWrite c :: AUnlock :: nil) channel_table).\n"
-                                 "Proof. vm_compute. eexists. split; repeat (try (left; reflexivity); right). Qed.\n"
+                                 "  In (\"Send\", ARLock :: ARUnlock :: nil) channel_table /\\ In (\"Close\", ALock :: AUnlock :: nil) channel_table /\\\n"
+                                 "  In (\"IsClosed\", nil) channel_table /\\ In (\"Receive\", nil) channel_table /\\ In (\"Len\", nil) channel_table /\\ In (\"Cap\", nil) channel_table.\n"
+                                 "Proof. vm_compute. repeat split; repeat (try (left; reflexivity); right). Qed.\n"
                                  "Print Assumptions channel_race_free.\n")
             rc, o = ck.coqc(obl, cwd=ck.bdir, timeout=300)
             ck.obligations += 3
@@ -133,7 +137,7 @@ def main(ck):
         if rp.get("mode") == "sched":
             cases = [rp["case"]]
     else:
-        budget = 250 if ck.tier == "quick" else 4000
+        budget = 250 if ck.tier == "quick" else 20000
         shapes = [
             [["send"], ["close"]],
             [["send"], ["recv"], ["close"]],
@@ -143,8 +147,12 @@ def main(ck):
             [["send", "is"], ["recv", "recv"], ["close", "close"]],
             [["send", "send", "send"], ["recv", "recv", "recv"], ["is", "close"]],
             [["send"], ["send"], ["recv"], ["recv"], ["close"]],
+            # the consumer polls isClosed() before every receive (audit finding 1: this deadlocked when IsClosed took the lock)
+            [["send"], ["close"], ["is", "recv"]],
+            [["send", "send"], ["close"], ["is", "recv", "is", "recv"]],
+            [["send", "len"], ["cap", "recv"], ["len", "close"]],
         ]
-        for cap in (0, 1, 2):
+        for cap in ((0, 1, 2) if ck.tier == "quick" else (0, 1, 2, 3, 4)):
             for sh in shapes:
                 cases.append({"cap": cap, "threads": sh, "explore": budget})
         # seeded random schedules on the bigger configurations (2 producers x 2 consumers x 1 closer, <= 3 ops each)
@@ -152,7 +160,7 @@ def main(ck):
         for _ in range(nrand):
             np_, nc = rng.choice([1, 2, 2, 3]), rng.choice([1, 2, 2, 3])
             ths = [["send"] * rng.randint(1, 3) for _ in range(np_)] + \
-                  [[rng.choice(["recv", "recv", "recv", "is"]) for _ in range(rng.randint(1, 3))] for _ in range(nc)] + \
+                  [[rng.choice(["recv", "recv", "recv", "is", "len", "cap"]) for _ in range(rng.randint(1, 3))] for _ in range(nc)] + \
                   [rng.choice([["close"], ["close"], ["is", "close"], ["close", "close"]])]
             n = len(ths)
             choices = [rng.randrange(n) for _ in range(60)]
@@ -195,7 +203,8 @@ def main(ck):
                     tmap.append((c, tr))
     bad = ck.eval_cases("traces", HEADER, terms, "check_trace", shard=max(100, len(terms) // 32 + 1)) if terms else {}
     cl = {1: "tie: model vs implementation (macro-step replay)", 2: "no_crash(impl): panic", 3: "recv_at_most_once / recv_subset_sent(impl)",
-          4: "per_sender_order(impl)", 5: "exactly_once_when_drained(impl)", 6: "after_close(impl)"}
+          4: "per_sender_order(impl)", 5: "exactly_once_when_drained(impl)", 6: "after_close(impl)",
+          7: "deadlock_shape / queries_never_block(impl): a query call blocked, or a deadlock holding back a receiver"}
     for j, cls in sorted(bad.items(), key=lambda kv: len(tmap[kv[0]][1]["rounds"])):
         c, tr = tmap[j]
         if cls == [1]:
@@ -234,8 +243,12 @@ def main(ck):
             kind = "data-race" if o.get("race") else ("fatal" if o.get("fatal") else "exit-%s" % o.get("exit"))
             ck.violation("stress:%s:%s" % (kind, "+".join(fns[:3])), {"mode": "stress", "case": c, "impl_out": {k: o.get(k) for k in ("exit", "race", "fatal", "report")},
                                                                       "clause": "no crash / no data race under free-running goroutines"})
+        if o.get("hung"):
+            nfail += 1
+            ck.violation("stress:hang", {"mode": "stress", "case": c, "impl_out": {"hung_runs": o.get("hung"), "of": c.get("repeat")},
+                                         "clause": "a free-running stress program (closer + draining consumers) did not finish within 5 s"})
         runs = [r for r in (o.get("runs") or []) if r]
-        for r in runs[:12]:
+        for r in runs:          # every repetition is evaluated
             sterms.append(coq_stress(c, r))
             smap.append((c, r))
     sbad = ck.eval_cases("stress", HEADER, sterms, "check_stress", shard=max(50, len(sterms) // 16 + 1)) if sterms else {}
@@ -247,27 +260,34 @@ def main(ck):
     # ---------------------------------------------------------------- script level (spawn + Channel class): validation only
     SCRIPT = """$ch = new Channel(1);
 $done = new Channel(0);
-for ($p = 0; $p < 3; $p++) {
-    spawn(function() use ($ch, $done) {
-        for ($k = 0; $k < 3; $k++) { $ch->send(7); }
+$ids = new Channel(3);
+$ids->send(1); $ids->send(2); $ids->send(3);
+$p = 0;
+while ($p < 3) {
+    spawn(function() use ($ch, $done, $ids) {
+        $id = $ids->receive();
+        $k = 0;
+        while ($k < 3) { $ch->send($id * 10 + $k); $k = $k + 1; }
         $done->send(1);
     });
+    $p = $p + 1;
 }
 spawn(function() use ($ch, $done) {
     $done->receive(); $done->receive(); $done->receive();
     $ch->close();
 });
-$n = 0;
+$out = "";
 while (true) {
+    if ($ch->isClosed() && $ch->len() == 0) { }
     $v = $ch->receive();
     if ($v === null) { break; }
-    $n = $n + 1;
+    $out = $out . $v . ",";
 }
-echo $n, "|", $ch->isClosed() ? "closed" : "open", "|", $ch->send(5) ? "sent" : "refused";
+echo $out, "|", $ch->isClosed() ? "closed" : "open", "|", $ch->send(5) ? "sent" : "refused", "|", $ch->cap();
 """
     nscript = 0
     if not ck.replay:
-        so, rc, err = run_lines([racebin, "script"], [json.dumps({"src": SCRIPT, "repeat": 20 if ck.tier == "quick" else 300})], timeout=600)
+        so, rc, err = run_lines([racebin, "script"], [json.dumps({"src": SCRIPT, "repeat": 150 if ck.tier == "quick" else 1500})], timeout=900)
         if so and "worker_death" in so[0]:
             death_violation(ck, "script", {"src": SCRIPT}, so[0]["worker_death"])
         elif not so or "runs" not in so[0]:
@@ -276,9 +296,19 @@ echo $n, "|", $ch->isClosed() ? "closed" : "open", "|", $ch->send(5) ? "sent" : 
         else:
             for r in so[0]["runs"]:
                 nscript += 1
-                if r["outcome"] != "ok" or r["out"].strip() != "9|closed|refused":
+                ok = r["outcome"] == "ok"
+                parts = r["out"].strip().split("|")
+                if ok and len(parts) == 4:
+                    vals = [int(x) for x in parts[0].split(",") if x]
+                    # every value exactly once, each producer's values in the order sent, then closed / refused / cap 1
+                    ok = sorted(vals) == sorted(i * 10 + k for i in (1, 2, 3) for k in range(3)) and \
+                        all([v for v in vals if v // 10 == i] == [i * 10 + k for k in range(3)] for i in (1, 2, 3)) and \
+                        parts[1:] == ["closed", "refused", "1"]
+                else:
+                    ok = False
+                if not ok:
                     ck.violation("script:spawn-channel", {"mode": "script", "case": {"src": SCRIPT}, "impl_out": r,
-                                                          "clause": "script level: 3 spawned producers x 3 sends, close after all, consumer drains: expected 9|closed|refused"})
+                                                          "clause": "script level (spawn + Channel class): 3 producers x 3 distinct values, closer, consumer polling isClosed()/len(): every value exactly once, per-producer order, then closed|refused|cap"})
                     break
     ck.cov["script_level_runs"] = nscript
 
@@ -298,5 +328,5 @@ echo $n, "|", $ch->isClosed() ? "closed" : "open", "|", $ch->send(5) ? "sent" : 
     ck.cov["stress_failures"] = nfail
     ck.samples = [dict(tmap[len(tmap) // 2][0], chosen=tmap[len(tmap) // 2][1].get("chosen")) if tmap else None]
     ck.finish(level="proof", evaluations=nsched + len(sterms), distinct_nontrivial=sum(1 for c, tr in tmap if len(tr["rounds"]) >= 4 and (any(r["blocked"] for r in tr["rounds"]) or any(len(r["events"]) > 1 for r in tr["rounds"]))),
-              rule="controlled schedules: DFS over the scheduler's decision points (op boundaries + the two verif yield points) for 8 thread-program shapes x capacities 0,1,2 up to the stated budget per configuration, plus seeded random schedules for 1-3 producers x 1-3 consumers x 1 closer with <= 3 ops each over capacities 0..4; stress: free-running goroutines under -race for up to 3 producers x 3 consumers x 1 closer, capacities 0..4, GOMAXPROCS 1..16; non-trivial = schedule of >= 4 rounds in which some goroutine blocked or was woken by another's step",
+              rule="controlled schedules: DFS over the scheduler's decision points (op boundaries + the two verif yield points) for 11 thread-program shapes x capacities 0,1,2 (thorough: 0..4), at most `budget` schedules per configuration (a configuration whose schedule space exceeds the budget is explored only partially: see explored_configs_budget_exhausted), plus seeded random schedules for 1-3 producers x 1-3 consumers x 1 closer with <= 3 ops each over capacities 0..4; stress: free-running goroutines under -race for up to 3 producers x 3 consumers x 1 closer, capacities 0..4, GOMAXPROCS 1..16; non-trivial = schedule of >= 4 rounds in which some goroutine blocked or was woken by another's step",
               traces=len(terms) + len(sterms))
